@@ -138,7 +138,15 @@ class World:
 @lru_cache(None)
 def _struct_class(layout, members):
     from frappy.core import IntRange, Module, Parameter
+    from frappy.errors import RangeError
     from frappy.extparams import StructParam
+
+    def store(self, v):
+        """the hardware: clips at hwmax or refuses"""
+        if v > self.hwmax and self.hwmode == 'refuse':
+            raise RangeError('the hardware refuses %r' % v)
+        return min(int(v), self.hwmax)
+
     ns = {'s': StructParam('linked struct', {k: Parameter('member ' + k, IntRange(0, 9)) for k in members},
                            'm_', readonly=False)}
     if layout == 'combined':
@@ -146,7 +154,7 @@ def _struct_class(layout, members):
             return dict(self.hw)
 
         def write_s(self, value):
-            self.hw = {k: min(int(v), self.hwmax) for k, v in value.items()}
+            self.hw = {k: store(self, v) for k, v in value.items()}   # nothing is stored when one is refused
             return dict(self.hw)
         ns.update(read_s=read_s, write_s=write_s)
     else:
@@ -155,7 +163,7 @@ def _struct_class(layout, members):
                 return self.hw[k]
 
             def wfunc(self, value, k=k):
-                self.hw = dict(self.hw, **{k: min(int(value), self.hwmax)})
+                self.hw = dict(self.hw, **{k: store(self, value)})
                 return self.hw[k]
             ns['read_m_' + k] = rfunc
             ns['write_m_' + k] = wfunc
@@ -170,6 +178,7 @@ class StructWorld(World):
         self.m = self.add('m', _struct_class(self.layout, self.members))
         self.m.hw = {k: 0 for k in self.members}
         self.m.hwmax = init['hwmax']
+        self.m.hwmode = init['hwmode']
         self.startup(self.m)
         self.connect()
 
@@ -194,6 +203,7 @@ class StructWorld(World):
         elif act == 'am':
             setattr(m, 'm_' + a['m'], a['v'])
         o = self.obs()
+        o['ok'] = rep is None or rep[0]
         if rep is not None:
             v = rep[1] if rep[0] else 'none'
             o['rep'] = self.struct(v) if act in ('ws', 'rs') else _int(v)
@@ -201,11 +211,11 @@ class StructWorld(World):
 
     @staticmethod
     def expect(a, e):
-        x = {'hw': e['hw'], 'mem': e['mem'], 'str': e['str'], 'vmem': e['mem'], 'vstr': e['str']}
+        x = {'hw': e['hw'], 'mem': e['mem'], 'str': e['str'], 'vmem': e['mem'], 'vstr': e['str'], 'ok': e['ok']}
         if a['act'] in ('ws', 'rs'):
-            x['rep'] = e['str']
+            x['rep'] = e['str'] if e['ok'] else {k: GARBAGE for k in e['str']}
         elif a['act'] in ('wm', 'rm'):
-            x['rep'] = e['mem'][a['m']]
+            x['rep'] = e['mem'][a['m']] if e['ok'] else NONE
         return x
 
     @staticmethod
@@ -218,30 +228,58 @@ class StructWorld(World):
 
     @staticmethod
     def layout_of(init):
-        return {'layout': init['layout']}
+        return {'layout': init['layout'], 'hwmode': init['hwmode']}
 
 
 # ------------------------------------------------------------------ (2) float <-> enum index
 
-@lru_cache(None)
-def _fe_class(shape, table, order):
-    from frappy.core import Module
-    from frappy.extparams import FloatEnumParam
+def _fe_labels(table, style):
+    """gamma for the label set: the same index -> value table written in the forms FloatEnumParam accepts"""
     items = list(table)
-    if order:
-        items.reverse()
-    labels = [(i, 'L%d' % i, t * TICK) for i, t in items]
-    ns = {'r': FloatEnumParam('linked float', labels, '', readonly=False)}
+    if style == 0:      # (index, label, value)
+        return [(i, 'L%d' % i, t * TICK) for i, t in items], ''
+    if style == 1:      # the same in reverse order of definition
+        return [(i, 'L%d' % i, t * TICK) for i, t in reversed(items)], ''
+    labels, nextidx, used = [], 0, set()
+    for i, t in items:  # value taken from the label ('750mV'), index given only where it is not the next one
+        label = '%dmV' % (t * 250)
+        if label in used:   # equal values need different labels
+            elem = ['L%d' % i, t * TICK]
+        else:
+            elem = [label]
+        used.add(label)
+        if i != nextidx or style == 3:
+            elem.insert(0, i)
+        labels.append(elem[0] if len(elem) == 1 else tuple(elem))
+        nextidx = i + 1
+    return labels, 'V'
 
-    def write_r_idx(self, value):
-        self.hw = int(value)
-        return value
-    ns['write_r_idx'] = write_r_idx
+
+@lru_cache(None)
+def _fe_class(shape, mode, cap, table, style, iname):
+    from frappy.core import Module
+    from frappy.errors import HardwareError
+    from frappy.extparams import FloatEnumParam
+    labels, unit = _fe_labels(table, style)
+    kwds = {} if iname == 'r_idx' else {'idx_name': iname}
+    ns = {'r': FloatEnumParam('linked float', labels, unit, readonly=False, **kwds)}
+
+    def write_idx(self, value):
+        """the driver: answers with the index the hardware is really on"""
+        i = int(value)
+        self.req = i
+        if i > cap and mode == 'raise':
+            raise HardwareError('range not available')
+        if i > cap and mode == 'clamp':
+            i = cap
+        self.hw = i
+        return None if mode == 'none' else i
+    ns['write_' + iname] = write_idx
     if shape == 'rw':
-        def read_r_idx(self):
+        def read_idx(self):
             return self.hw
-        ns['read_r_idx'] = read_r_idx
-    return type('FloatEnum_' + shape, (Module,), ns)
+        ns['read_' + iname] = read_idx
+    return type('FloatEnum_%s_%s' % (shape, mode), (Module,), ns)
 
 
 class FloatEnumWorld(World):
@@ -250,19 +288,21 @@ class FloatEnumWorld(World):
         self.table = {int(k): v for k, v in init['table'].items()}
         self.shape = init['shape']
         first = min(self.table)
-        cls = _fe_class(self.shape, tuple(sorted(self.table.items())), variant % 2)
-        cfg = {'r_idx': {'value': first}} if self.shape == 'w' and not fresh else {}
+        self.iname = iname = ('r_idx', 'ri')[variant // 4 % 2]
+        cls = _fe_class(self.shape, init['mode'], init['cap'], tuple(sorted(self.table.items())), variant % 4, iname)
+        cfg = {iname: {'value': first}} if self.shape == 'w' and not fresh else {}
         self.m = self.add('m', cls, **cfg)
         self.m.hw = first
         if not fresh:
             self.startup(self.m)
+        self.m.req = -1
         self.connect()
 
     def obs(self, probe=False):
         m = self.m
         self.drain()
-        seen_i, seen_v = self.seen(m, 'r_idx'), self.seen(m, 'r')
-        o = {'idx': int(m.r_idx), 'hw': m.hw, 'val': _tick(m.r),
+        seen_i, seen_v = self.seen(m, self.iname), self.seen(m, 'r')
+        o = {'idx': int(getattr(m, self.iname)), 'hw': m.hw, 'req': m.req, 'val': _tick(m.r),
              'vidx': -1 if seen_i == 'none' else seen_i, 'vval': -1 if seen_v == 'none' else _tick(seen_v)}
         if probe:
             ok, v = self.request('read', m, 'r')
@@ -278,11 +318,11 @@ class FloatEnumWorld(World):
         elif act == 'rf':
             rep = self.access(via, 'r', m, 'r')
         elif act == 'wi':
-            rep = self.access(via, 'w', m, 'r_idx', a['i'])
+            rep = self.access(via, 'w', m, self.iname, a['i'])
         elif act == 'ri':
-            rep = self.access(via, 'r', m, 'r_idx')
+            rep = self.access(via, 'r', m, self.iname)
         elif act == 'ai':
-            m.r_idx = a['i']
+            setattr(m, self.iname, a['i'])
         o = self.obs(probe)
         o['last'] = 'ok' if rep is None or rep[0] else 'refused'
         if rep is not None:
@@ -291,11 +331,12 @@ class FloatEnumWorld(World):
 
     @staticmethod
     def expect(a, e, probe=False):
-        x = {'idx': e['idx'], 'hw': e['hw'], 'val': e['val'], 'vidx': e['idx'], 'vval': e['val'], 'last': e['last']}
+        x = {'idx': e['idx'], 'hw': e['hw'], 'req': e['req'], 'val': e['val'], 'vidx': e['idx'], 'vval': e['val'],
+             'last': e['last']}
         if a['act'] in ('wf', 'rf'):
             x['rep'] = e['val'] if e['last'] == 'ok' else -1
         elif a['act'] in ('wi', 'ri'):
-            x['rep'] = e['idx']
+            x['rep'] = e['idx'] if e['last'] == 'ok' else -1
         if probe:
             x['pval'] = e['val']
         return x
@@ -314,7 +355,7 @@ class FloatEnumWorld(World):
 
     @staticmethod
     def layout_of(init):
-        return {'shape': init['shape']}
+        return {'shape': init['shape'], 'mode': init['mode']}
 
 
 # ------------------------------------------------------------------ (3) limit parameters
@@ -605,6 +646,7 @@ def _replay_group(item):
     prev = w.obs(True) if fe else w.obs()
     x0 = cls.expect(init, init['exp'], True) if fe else cls.expect(init, init['exp'])
     x0.pop('last', None)
+    x0.pop('ok', None)
     if {k: prev.get(k) for k in x0} != x0:
         return {'step': 0, 'action': {'act': 'init'}, 'expected': [x0], 'observed': prev, 'vias': vias,
                 'variant': variant, 'symptom': w.symptom({'act': 'init'}, prev, None)}
@@ -671,6 +713,7 @@ def _random_trace(arg):
     fresh = False
     if sub == 'LinkedStruct':
         init = {'act': 'init', 'layout': rnd.choice(('combined', 'separate')), 'hwmax': 7,
+                'hwmode': rnd.choice(('clip', 'clip', 'refuse')),
                 'exp': {'hw': {k: 0 for k in 'pqr'}}}
         mem = 'pqr'
 
@@ -694,8 +737,9 @@ def _random_trace(arg):
         shape = rnd.choice(('rw', 'w'))
         # a module whose index can only be written and has no configured value is served exactly as constructed
         fresh = shape == 'w' and rnd.random() < 0.5
-        init = {'act': 'init', 'tab': tab, 'shape': shape, 'table': tables[tab], 'fresh': fresh}
         idxs = sorted(tables[tab])
+        init = {'act': 'init', 'tab': tab, 'shape': shape, 'table': tables[tab], 'fresh': fresh,
+                'mode': rnd.choice(('echo', 'none', 'clamp', 'clamp', 'raise')), 'cap': idxs[min(1, len(idxs) - 1)]}
 
         def pick():
             r = rnd.random()
